@@ -5,7 +5,7 @@ namespace Grip.Drv.C07
 open Lean Grip Grip.C07 Grip.Proto
 
 def famOf : String → Option Fam
-  | "ring" => some .ring | "star" => some .star | "iso" => some .iso | "huge" => some .huge | _ => none
+  | "ring" => some .ring | "star" => some .star | "iso" => some .iso | "huge" => some .huge | "mixed" => some .mixed | _ => none
 
 def stepOf (s : String) : Option StepK :=
   match s.splitOn ":" with
@@ -14,6 +14,7 @@ def stepOf (s : String) : Option StepK :=
   | ["as"] => some .as_ | ["select"] => some .select | ["count"] => some .count
   | ["distinct"] => some .distinct | ["aggcount"] => some .aggcount | ["aggterm"] => some .aggterm
   | ["agg2"] => some .agg2
+  | ["aggpct"] => some .aggpct
   | ["limit", k] => k.toNat?.map .limit
   | ["skip", k] => k.toNat?.map .skip
   | ["agghist", k] => k.toNat?.map .agghist
